@@ -22,6 +22,15 @@ BASE = os.environ.get('SEED_BASE', 'HEAD')     # the /repo commit the stored pat
 PY = '/venv/bin/python'
 
 
+def snapshot_verif():
+    """the checks are run from a private copy of /verif/sa taken now, so that edits made while a long evaluation runs do not mix versions"""
+    snap = tempfile.mkdtemp(prefix='verifsnap_', dir='/tmp')
+    shutil.copytree(os.path.join(VERIF, 'sa'), os.path.join(snap, 'sa'), ignore=shutil.ignore_patterns('__pycache__'))
+    for f in ('check', 'known_findings.json', 'MANIFEST.json'):
+        shutil.copy(os.path.join(VERIF, f), os.path.join(snap, f))
+    return snap
+
+
 def sh(cmd, cwd=None, env=None, timeout=1800):
     r = subprocess.run(cmd, shell=True, cwd=cwd, env=env, capture_output=True, text=True, timeout=timeout)
     return r.returncode, r.stdout + r.stderr
@@ -36,6 +45,9 @@ def main():
         del a[i:i + 2]
     src, pid, name = a[:3]
     src = os.path.abspath(src)
+    global BASE
+    if os.path.exists(os.path.join(src, 'base.txt')) and 'SEED_BASE' not in os.environ:
+        BASE = open(os.path.join(src, 'base.txt')).read().strip()
     wt = tempfile.mkdtemp(prefix=f'seedeval_{name}_', dir='/tmp')
     os.rmdir(wt)
     meta = dict(name=name, property=pid, source=src)
@@ -49,6 +61,18 @@ def main():
         rc0, out0 = sh(f'{PY} {demo}', cwd=wt, env=env)
         meta['demo_pristine_exit'] = rc0
         rc, out = sh(f'git apply {os.path.join(src, "patch.diff")}', cwd=wt)
+        if rc == 0 and BASE != 'HEAD':
+            # the patch was written against an older /repo commit: bring the later fix commits of /repo on top of it
+            sh('git -c user.email=v@v -c user.name=v commit -qam seeded-change', cwd=wt)
+            later = sh(f'git -C /repo rev-list --reverse {BASE}..HEAD')[1].split()
+            meta['rebased_over'] = []
+            for c in later:
+                r2, o2 = sh(f'git -c user.email=v@v -c user.name=v cherry-pick {c}', cwd=wt)
+                if r2:
+                    sh('git cherry-pick --abort', cwd=wt)
+                    meta['rebase_conflict'] = c
+                    break
+                meta['rebased_over'].append(c[:7])
         meta['applies'] = rc == 0
         if rc:
             meta['apply_error'] = out[-400:]
@@ -66,7 +90,9 @@ def main():
             outd = tempfile.mkdtemp(prefix='seedout_', dir='/tmp')
             e2 = dict(os.environ, VERIF_REPO=wt, VERIF_OUT=outd)
             t0 = time.time()
-            rc, out = sh(f'{os.path.join(VERIF, "check")} {pid} --tier {t}', cwd=VERIF, env=e2, timeout=3600)
+            snap = snapshot_verif()
+            rc, out = sh(f'{os.path.join(snap, "check")} {pid} --tier {t}', cwd=snap, env=e2, timeout=3600)
+            shutil.rmtree(snap, ignore_errors=True)
             lines = out.splitlines()
             viol = [l for l in lines if l.startswith('VIOLATION')]
             diag = [lines[i - 1] for i, l in enumerate(lines) if l.startswith('VIOLATION') and i > 0]
@@ -80,7 +106,7 @@ def main():
         shutil.rmtree(wt, ignore_errors=True)
     dst = os.path.join(VERIF, 'seeded', name)
     os.makedirs(dst, exist_ok=True)
-    for f in ('patch.diff', 'demo.py', 'notes.md'):
+    for f in ('patch.diff', 'demo.py', 'notes.md', 'base.txt'):
         if os.path.exists(os.path.join(src, f)) and os.path.abspath(src) != os.path.abspath(dst):
             shutil.copy(os.path.join(src, f), os.path.join(dst, f))
     notes = open(os.path.join(dst, 'notes.md')).read() if os.path.exists(os.path.join(dst, 'notes.md')) else ''
